@@ -17,5 +17,5 @@ Proof.
   destruct d as [|v [|c r]]; [reflexivity|reflexivity|].
   change (lenN (v :: c :: r) <? 2) with (N.of_nat (S (S (length r))) <? 2).
   replace (N.of_nat (S (S (length r))) <? 2) with false by (symmetry; apply N.ltb_ge; lia).
-  time crush.
+  crush.
 Qed.
